@@ -152,7 +152,7 @@ theorem gatherUnlock_RBody (cfg : Cfg) (b : Nat) (ls : List Nat) : Rel RBody (ga
     exact RBody.pre.trans (backendCmd_RBody cfg b (.unlock lk) trivial w) (ih _)
 
 theorem rollbackOne_RBody (cfg : Cfg) (t : TxB) : Rel RBody (rollbackOne cfg t) :=
-  Rel.tryFinally RBody.pre (Rel.pure RBody.pre _) (gatherUnlock_RBody _ _ _)
+  Rel.tryFinally RBody.pre (Rel.pure RBody.pre _) (fun w => gatherUnlock_RBody _ _ _ w)
 
 theorem rollbackList_RBody (cfg : Cfg) (ts : List TxB) (w : FWorld) : RBody w (rollbackList cfg ts w).2 := by
   induction ts generalizing w with
@@ -387,10 +387,10 @@ theorem baseCommit_Clean (cfg : Cfg) (t : TxB) : Clean cfg (baseCommit cfg t) :=
   exact Clean.bind Clean.getW fun _ => runCmds_Clean _ _ _
 
 theorem commitOne_Clean (cfg : Cfg) (t : TxB) : Clean cfg (commitOne cfg t) :=
-  Clean.tryFinally (baseCommit_Clean cfg t) (gatherUnlock_Clean _ _ _)
+  Clean.tryFinally (baseCommit_Clean cfg t) (fun w => gatherUnlock_Clean _ _ _ w)
 
 theorem rollbackOne_Clean (cfg : Cfg) (t : TxB) : Clean cfg (rollbackOne cfg t) :=
-  Clean.tryFinally (Clean.pure _) (gatherUnlock_Clean _ _ _)
+  Clean.tryFinally (Clean.pure _) (fun w => gatherUnlock_Clean _ _ _ w)
 
 /-- `_rollback` returns no error only if no command of it failed -/
 theorem rollbackList_clean (cfg : Cfg) (ts : List TxB) (w : FWorld) :
@@ -521,6 +521,28 @@ theorem Clean.blockOn {cfg : Cfg} (o : Option Nat) {inner : M Unit} (hin : Clean
     obtain ⟨r', w3⟩ := q
     cases r' <;> exact ⟨Nat.le_trans h1.1 h2, fun h => by simp [Res.isOk] at h⟩
 
+theorem txCommitNow_Clean (cfg : Cfg) : Clean cfg (txCommitNow cfg) := by
+  intro w
+  unfold txCommitNow
+  split
+  · exact ⟨Nat.le_refl _, fun _ i h1 h2 => by simp only at h2; omega⟩
+  · rename_i tx _
+    have h := commitLoop_Clean cfg tx.backs w
+    generalize commitLoop cfg tx.backs w = p at h
+    obtain ⟨r, w1⟩ := p
+    exact h
+
+theorem txRollbackNow_Clean (cfg : Cfg) : Clean cfg (txRollbackNow cfg) := by
+  intro w
+  unfold txRollbackNow
+  split
+  · exact ⟨Nat.le_refl _, fun _ i h1 h2 => by simp only at h2; omega⟩
+  · rename_i tx _
+    have h := txRollback_Clean cfg tx.backs w
+    generalize txRollback cfg tx.backs w = p at h
+    obtain ⟨r, w1⟩ := p
+    exact h
+
 mutual
 theorem bodyStep_Clean (cfg : Cfg) : (c : BodyCmd) → Clean cfg (bodyStep cfg c)
   | .set .. => by unfold bodyStep; exact Clean.bind (txSet_Clean _ _ _ _ _) fun _ => emit_Clean _ _
@@ -534,6 +556,8 @@ theorem bodyStep_Clean (cfg : Cfg) : (c : BodyCmd) → Clean cfg (bodyStep cfg c
   | .expire .. => by unfold bodyStep; exact Clean.bind (txExpire_Clean _ _ _ _) fun _ => emit_Clean _ _
   | .setIf .. => by unfold bodyStep; exact Clean.bind (txSetIf_Clean _ _ _ _ _ _) fun _ => emit_Clean _ _
   | .block o body => by unfold bodyStep; exact Clean.blockOn o (runBody_Clean cfg body)
+  | .commit => by unfold bodyStep; exact txCommitNow_Clean cfg
+  | .rollback => by unfold bodyStep; exact txRollbackNow_Clean cfg
 
 theorem runBody_Clean (cfg : Cfg) : (body : List BodyCmd) → Clean cfg (runBody cfg body)
   | [] => by unfold runBody; exact Clean.pure _
@@ -626,24 +650,112 @@ theorem objOf_putObj (w : FWorld) (i j : Nat) (v : CtxObj) :
   simp only [alLookup_put]
   split <;> rfl
 
-def RIn (w w' : FWorld) : Prop :=
-  w.ctx.isSome = true → w'.ctx.isSome = true ∧ (∀ i, objOf w' i = objOf w i) ∧ RBody w w'
+/-! ### commit / rollback do not touch the context objects either -/
 
-theorem RIn.pre : Pre RIn :=
-  ⟨fun w _ => ⟨‹_›, fun _ => rfl, RBody.pre.refl w⟩,
+theorem gatherUnlock_RK (cfg : Cfg) (b : Nat) (ls : List Nat) : Rel RK (gatherUnlock cfg b ls) := by
+  induction ls with
+  | nil => exact Rel.pure RK.pre _
+  | cons lk rest ih =>
+    intro w
+    rw [gatherUnlock_snd]
+    exact RK.pre.trans (backendCmd_RK cfg b (.unlock lk) w) (ih _)
+
+theorem runCmds_RK (cfg : Cfg) (b : Nat) (cs : List BCmd) : Rel RK (runCmds cfg b cs) := by
+  induction cs with
+  | nil => exact Rel.pure RK.pre _
+  | cons c rest ih =>
+    unfold runCmds
+    simp only [bind_eq]
+    exact Rel.bind RK.pre (backendCmd_RK cfg b c) fun _ => ih
+
+theorem commitOne_RK (cfg : Cfg) (t : TxB) : Rel RK (commitOne cfg t) := by
+  refine Rel.tryFinally RK.pre ?_ (fun w => gatherUnlock_RK _ _ _ w)
+  unfold baseCommit
+  simp only [bind_eq]
+  exact Rel.bind RK.pre (Rel.getW RK.pre) fun _ => runCmds_RK _ _ _
+
+theorem rollbackOne_RK (cfg : Cfg) (t : TxB) : Rel RK (rollbackOne cfg t) :=
+  Rel.tryFinally RK.pre (Rel.pure RK.pre _) (fun w => gatherUnlock_RK _ _ _ w)
+
+theorem rollbackList_RK (cfg : Cfg) (ts : List TxB) (w : FWorld) : RK w (rollbackList cfg ts w).2 := by
+  induction ts generalizing w with
+  | nil => exact RK.pre.refl w
+  | cons t rest ih =>
+    rcases rollbackList_snd cfg t rest w with h | ⟨h, _⟩ <;> rw [h]
+    · exact RK.pre.trans (rollbackOne_RK cfg t w) (ih _)
+    · exact rollbackOne_RK cfg t w
+
+theorem commitLoop_RK (cfg : Cfg) (ts : List TxB) (w : FWorld) : RK w (commitLoop cfg ts w).2 := by
+  induction ts generalizing w with
+  | nil => exact RK.pre.refl w
+  | cons t rest ih =>
+    rcases commitLoop_snd cfg t rest w with h | h <;> rw [h]
+    · exact RK.pre.trans (commitOne_RK cfg t w) (ih _)
+    · exact RK.pre.trans (commitOne_RK cfg t w) (rollbackList_RK cfg rest _)
+
+theorem txCommitNow_RK (cfg : Cfg) : Rel RK (txCommitNow cfg) := by
+  intro w
+  unfold txCommitNow
+  split
+  · exact RK.pre.refl w
+  · rename_i tx _
+    have h := commitLoop_RK cfg tx.backs w
+    generalize commitLoop cfg tx.backs w = p at h
+    obtain ⟨r, w1⟩ := p
+    exact ⟨by simp only [Option.isSome_map]; exact h.1, h.2⟩
+
+theorem txRollbackNow_RK (cfg : Cfg) : Rel RK (txRollbackNow cfg) := by
+  intro w
+  unfold txRollbackNow
+  split
+  · exact RK.pre.refl w
+  · rename_i tx _
+    have h : RK w (txRollback cfg tx.backs w).2 := by rw [txRollback_snd]; exact rollbackList_RK cfg tx.backs w
+    generalize txRollback cfg tx.backs w = p at h
+    obtain ⟨r, w1⟩ := p
+    exact ⟨by simp only [Option.isSome_map]; exact h.1, h.2⟩
+
+/-- an explicit `tx.rollback()` sends unlocks only -/
+theorem txRollbackNow_RBody (cfg : Cfg) : Rel RBody (txRollbackNow cfg) := by
+  intro w
+  unfold txRollbackNow
+  split
+  · exact RBody.pre.refl w
+  · rename_i tx _
+    have h := txRollback_RBody cfg tx.backs w
+    generalize txRollback cfg tx.backs w = p at h
+    obtain ⟨r, w1⟩ := p
+    exact h
+
+/-- `RInP P`: inside a transaction the task stays inside it, every context object is left as found, and `P` -/
+def RInP (P : FWorld → FWorld → Prop) (w w' : FWorld) : Prop :=
+  w.ctx.isSome = true → w'.ctx.isSome = true ∧ (∀ i, objOf w' i = objOf w i) ∧ P w w'
+
+theorem RInP.pre {P : FWorld → FWorld → Prop} (hP : Pre P) : Pre (RInP P) :=
+  ⟨fun w _ => ⟨‹_›, fun _ => rfl, hP.refl w⟩,
    fun h1 h2 h => by
      obtain ⟨a, b, c⟩ := h1 h
      obtain ⟨a', b', c'⟩ := h2 a
-     exact ⟨a', fun i => (b' i).trans (b i), RBody.pre.trans c c'⟩⟩
+     exact ⟨a', fun i => (b' i).trans (b i), hP.trans c c'⟩⟩
 
-theorem RIn.of {α} {m : M α} (h1 : Rel RBody m) (h2 : Rel RK m) : Rel RIn m := fun w hs =>
+theorem RInP.of {P : FWorld → FWorld → Prop} {α} {m : M α} (h1 : Rel P m) (h2 : Rel RK m) : Rel (RInP P) m := fun w hs =>
   ⟨(h2 w).1.trans hs, fun i => by unfold objOf; rw [(h2 w).2], h1 w⟩
+
+/-- nothing asked -/
+def RTrue (_ _ : FWorld) : Prop := True
+theorem RTrue.pre : Pre RTrue := ⟨fun _ => trivial, fun _ _ => trivial⟩
+
+/-- with `RBody`: no write reaches a backend (bodies without `tx.commit()`) -/
+def RIn := RInP RBody
+/-- for every body: the context variable and the context objects -/
+def RInK := RInP RTrue
 
 /-- **a nested block inside a running transaction is transparent**: entering it bumps the `_inner` of its object (if it is a
 shared one), leaving it — normally or not — takes the bump back and does nothing else; in particular it does not commit,
 roll back, unlock or reset the context variable, whichever object it is opened on (the very object of the outermost
 block included) -/
-theorem blockOn_RIn (cfg : Cfg) (o : Option Nat) {inner : M Unit} (hin : Rel RIn inner) : Rel RIn (blockOn cfg o inner) := by
+theorem blockOn_RInP {P : FWorld → FWorld → Prop} (hP : Pre P) (hput : ∀ w i v, P w (putObj w i v))
+    (cfg : Cfg) (o : Option Nat) {inner : M Unit} (hin : Rel (RInP P) inner) : Rel (RInP P) (blockOn cfg o inner) := by
   intro w hs
   obtain ⟨t, ht⟩ := Option.isSome_iff_exists.1 hs
   unfold blockOn
@@ -661,7 +773,7 @@ theorem blockOn_RIn (cfg : Cfg) (o : Option Nat) {inner : M Unit} (hin : Rel RIn
     rw [he]
     generalize hw1 : putObj w i { objOf w i with inner := (objOf w i).inner + 1 } = w1
     have hs1 : w1.ctx.isSome = true := by rw [← hw1]; exact hs
-    have hb1 : RBody w w1 := by rw [← hw1]; exact RBody.same rfl rfl rfl
+    have hb1 : P w w1 := by rw [← hw1]; exact hput _ _ _
     have ho1 : objOf w1 i = { objOf w i with inner := (objOf w i).inner + 1 } := by
       rw [← hw1, objOf_putObj, if_pos rfl]
     have ho1' : ∀ j, j ≠ i → objOf w1 j = objOf w j := by
@@ -674,9 +786,9 @@ theorem blockOn_RIn (cfg : Cfg) (o : Option Nat) {inner : M Unit} (hin : Rel RIn
       intro exc
       have : (objOf (inner w1).2 i).inner ≠ 0 := by rw [ho2 i, ho1]; simp
       simp only [exitOn, this, ne_eq, not_false_eq_true, if_true]
-    have hfin : RIn w (putObj (inner w1).2 i { objOf (inner w1).2 i with inner := (objOf (inner w1).2 i).inner - 1 }) := by
+    have hfin : RInP P w (putObj (inner w1).2 i { objOf (inner w1).2 i with inner := (objOf (inner w1).2 i).inner - 1 }) := by
       intro _
-      refine ⟨hs2, fun j => ?_, RBody.pre.trans (RBody.pre.trans hb1 hb2) (RBody.same rfl rfl rfl)⟩
+      refine ⟨hs2, fun j => ?_, hP.trans (hP.trans hb1 hb2) (hput _ _ _)⟩
       rw [objOf_putObj]
       by_cases hj : i = j
       · subst hj
@@ -689,45 +801,88 @@ theorem blockOn_RIn (cfg : Cfg) (o : Option Nat) {inner : M Unit} (hin : Rel RIn
     | ok a => simp only; rw [hexit false]; exact hfin hs
     | err e => simp only; rw [hexit true]; exact hfin hs
 
+theorem RIn.pre : Pre RIn := RInP.pre RBody.pre
+theorem RInK.pre : Pre RInK := RInP.pre RTrue.pre
+
+theorem blockOn_RIn (cfg : Cfg) (o : Option Nat) {inner : M Unit} (hin : Rel RIn inner) : Rel RIn (blockOn cfg o inner) :=
+  blockOn_RInP RBody.pre (fun _ _ _ => RBody.same rfl rfl rfl) cfg o hin
+
+theorem blockOn_RInK (cfg : Cfg) (o : Option Nat) {inner : M Unit} (hin : Rel RInK inner) : Rel RInK (blockOn cfg o inner) :=
+  blockOn_RInP RTrue.pre (fun _ _ _ => trivial) cfg o hin
+
+theorem RInK.of {α} {m : M α} (h2 : Rel RK m) : Rel RInK m := RInP.of (fun _ => trivial) h2
+theorem RIn.of {α} {m : M α} (h1 : Rel RBody m) (h2 : Rel RK m) : Rel RIn m := RInP.of h1 h2
+
+/- every body, explicit `tx.commit()` / `tx.rollback()` included: the task stays inside the transaction, the context objects
+are left as found -/
 mutual
-theorem bodyStep_RIn (cfg : Cfg) : (c : BodyCmd) → Rel RIn (bodyStep cfg c)
-  | .set .. => by
+theorem bodyStep_RInK (cfg : Cfg) : (c : BodyCmd) → Rel RInK (bodyStep cfg c)
+  | .set .. => by unfold bodyStep; exact RInK.of (Rel.bind RK.pre (txSet_RK _ _ _ _ _) fun _ => emit_RK _)
+  | .incr .. => by unfold bodyStep; exact RInK.of (Rel.bind RK.pre (txIncr_RK _ _ _ _) fun _ => emit_RK _)
+  | .get .. => by unfold bodyStep; exact RInK.of (Rel.bind RK.pre (txGet_RK _ _ _) fun _ => emit_RK _)
+  | .delete .. => by unfold bodyStep; exact RInK.of (Rel.bind RK.pre (txDelete_RK _ _ _) fun _ => emit_RK _)
+  | .adv _ => by unfold bodyStep; exact RInK.of (Rel.modW _ fun _ => ⟨rfl, rfl⟩)
+  | .raise => by unfold bodyStep; exact Rel.throw RInK.pre _
+  | .setMany .. => by unfold bodyStep; exact RInK.of (Rel.bind RK.pre (txSetMany_RK _ _ _ _) fun _ => emit_RK _)
+  | .delMany .. => by unfold bodyStep; exact RInK.of (Rel.bind RK.pre (txDelMany_RK _ _ _) fun _ => emit_RK _)
+  | .expire .. => by unfold bodyStep; exact RInK.of (Rel.bind RK.pre (txExpire_RK _ _ _ _) fun _ => emit_RK _)
+  | .setIf .. => by unfold bodyStep; exact RInK.of (Rel.bind RK.pre (txSetIf_RK _ _ _ _ _ _) fun _ => emit_RK _)
+  | .block o body => by unfold bodyStep; exact blockOn_RInK cfg o (runBody_RInK cfg body)
+  | .commit => by unfold bodyStep; exact RInK.of (txCommitNow_RK cfg)
+  | .rollback => by unfold bodyStep; exact RInK.of (txRollbackNow_RK cfg)
+
+theorem runBody_RInK (cfg : Cfg) : (body : List BodyCmd) → Rel RInK (runBody cfg body)
+  | [] => by unfold runBody; exact Rel.pure RInK.pre _
+  | c :: rest => by unfold runBody; exact Rel.bind RInK.pre (bodyStep_RInK cfg c) fun _ => runBody_RInK cfg rest
+end
+
+/- a body without `tx.commit()` (explicit rollbacks allowed): additionally no write reaches a backend -/
+mutual
+theorem bodyStep_RIn (cfg : Cfg) : (c : BodyCmd) → c.hasCommit = false → Rel RIn (bodyStep cfg c)
+  | .set .., _ => by
     unfold bodyStep
     exact RIn.of (Rel.bind RBody.pre (txSet_RBody _ _ _ _ _) fun _ => emit_RBody _) (Rel.bind RK.pre (txSet_RK _ _ _ _ _) fun _ => emit_RK _)
-  | .incr .. => by
+  | .incr .., _ => by
     unfold bodyStep
     exact RIn.of (Rel.bind RBody.pre (txIncr_RBody _ _ _ _) fun _ => emit_RBody _) (Rel.bind RK.pre (txIncr_RK _ _ _ _) fun _ => emit_RK _)
-  | .get .. => by
+  | .get .., _ => by
     unfold bodyStep
     exact RIn.of (Rel.bind RBody.pre (txGet_RBody _ _ _) fun _ => emit_RBody _) (Rel.bind RK.pre (txGet_RK _ _ _) fun _ => emit_RK _)
-  | .delete .. => by
+  | .delete .., _ => by
     unfold bodyStep
     exact RIn.of (Rel.bind RBody.pre (txDelete_RBody _ _ _) fun _ => emit_RBody _) (Rel.bind RK.pre (txDelete_RK _ _ _) fun _ => emit_RK _)
-  | .adv _ => by
+  | .adv _, _ => by
     unfold bodyStep
     exact RIn.of (Rel.modW _ fun _ => RBody.same rfl rfl rfl) (Rel.modW _ fun _ => ⟨rfl, rfl⟩)
-  | .raise => by
+  | .raise, _ => by
     unfold bodyStep
     exact Rel.throw RIn.pre _
-  | .setMany .. => by
+  | .setMany .., _ => by
     unfold bodyStep
     exact RIn.of (Rel.bind RBody.pre (txSetMany_RBody _ _ _ _) fun _ => emit_RBody _) (Rel.bind RK.pre (txSetMany_RK _ _ _ _) fun _ => emit_RK _)
-  | .delMany .. => by
+  | .delMany .., _ => by
     unfold bodyStep
     exact RIn.of (Rel.bind RBody.pre (txDelMany_RBody _ _ _) fun _ => emit_RBody _) (Rel.bind RK.pre (txDelMany_RK _ _ _) fun _ => emit_RK _)
-  | .expire .. => by
+  | .expire .., _ => by
     unfold bodyStep
     exact RIn.of (Rel.bind RBody.pre (txExpire_RBody _ _ _ _) fun _ => emit_RBody _) (Rel.bind RK.pre (txExpire_RK _ _ _ _) fun _ => emit_RK _)
-  | .setIf .. => by
+  | .setIf .., _ => by
     unfold bodyStep
     exact RIn.of (Rel.bind RBody.pre (txSetIf_RBody _ _ _ _ _ _) fun _ => emit_RBody _) (Rel.bind RK.pre (txSetIf_RK _ _ _ _ _ _) fun _ => emit_RK _)
-  | .block o body => by
+  | .block o body, h => by
     unfold bodyStep
-    exact blockOn_RIn cfg o (runBody_RIn cfg body)
+    exact blockOn_RIn cfg o (runBody_RIn cfg body (by simpa [BodyCmd.hasCommit] using h))
+  | .commit, h => by simp [BodyCmd.hasCommit] at h
+  | .rollback, _ => by
+    unfold bodyStep
+    exact RIn.of (txRollbackNow_RBody cfg) (txRollbackNow_RK cfg)
 
-theorem runBody_RIn (cfg : Cfg) : (body : List BodyCmd) → Rel RIn (runBody cfg body)
-  | [] => by unfold runBody; exact Rel.pure RIn.pre _
-  | c :: rest => by unfold runBody; exact Rel.bind RIn.pre (bodyStep_RIn cfg c) fun _ => runBody_RIn cfg rest
+theorem runBody_RIn (cfg : Cfg) : (body : List BodyCmd) → hasCommitL body = false → Rel RIn (runBody cfg body)
+  | [], _ => by unfold runBody; exact Rel.pure RIn.pre _
+  | c :: rest, h => by
+    unfold runBody
+    have h' : c.hasCommit = false ∧ hasCommitL rest = false := by simpa [hasCommitL] using h
+    exact Rel.bind RIn.pre (bodyStep_RIn cfg c h'.1) fun _ => runBody_RIn cfg rest h'.2
 end
 
 /-! ### the outermost block -/
@@ -755,13 +910,23 @@ theorem enteredOn_RBody (o : Option Nat) (w : FWorld) : RBody w (enteredOn o w) 
   unfold enteredOn enterOn
   cases w.ctx <;> cases o <;> exact RBody.same rfl rfl rfl
 
-/-- the body of the outermost block: the world it starts in, what it keeps -/
-theorem runBody_outer (cfg : Cfg) (o : Option Nat) (body : List BodyCmd) (w : FWorld) (h : w.ctx = none) :
+/-- the body of the outermost block — ANY body, explicit `tx.commit()` / `tx.rollback()` and nested blocks included: it ends
+inside the transaction, the context objects are as `__aenter__` left them, the command counter has not gone back -/
+theorem runBody_outerK (cfg : Cfg) (o : Option Nat) (body : List BodyCmd) (w : FWorld) (h : w.ctx = none) :
     (runBody cfg body (enteredOn o w)).2.ctx.isSome = true ∧
     (∀ i, objOf (runBody cfg body (enteredOn o w)).2 i = objOf (enteredOn o w) i) ∧
+    w.counter ≤ (runBody cfg body (enteredOn o w)).2.counter := by
+  obtain ⟨a, b, _⟩ := runBody_RInK cfg body (enteredOn o w) (by rw [enteredOn_ctx o w h]; rfl)
+  refine ⟨a, b, ?_⟩
+  have := (runBody_Clean cfg body (enteredOn o w)).1
+  rwa [show (enteredOn o w).counter = w.counter from enterOn_counter o w] at this
+
+/-- … and a body without `tx.commit()`: no write reaches a backend before `__aexit__` -/
+theorem runBody_outer (cfg : Cfg) (o : Option Nat) (body : List BodyCmd) (w : FWorld) (h : w.ctx = none)
+    (hnc : hasCommitL body = false) :
     RBody w (runBody cfg body (enteredOn o w)).2 := by
-  obtain ⟨a, b, c⟩ := runBody_RIn cfg body (enteredOn o w) (by rw [enteredOn_ctx o w h]; rfl)
-  exact ⟨a, b, RBody.pre.trans (enteredOn_RBody o w) c⟩
+  obtain ⟨_, _, c⟩ := runBody_RIn cfg body hnc (enteredOn o w) (by rw [enteredOn_ctx o w h]; rfl)
+  exact RBody.pre.trans (enteredOn_RBody o w) c
 
 /-- **the `__aexit__` of the outermost block finishes the transaction**: whatever blocks the body opened and left in
 between (on other objects, on this very object), when the outermost block of an idle object is left its `_inner` is 0 and
@@ -770,7 +935,7 @@ theorem exitOn_outer (cfg : Cfg) (o : Option Nat) (body : List BodyCmd) (w : FWo
     (hidle : ObjIdle w o) (exc : Bool) :
     exitOn cfg o (enterOn o w).1 exc (runBody cfg body (enteredOn o w)).2 =
       aexitOn cfg o exc (runBody cfg body (enteredOn o w)).2 := by
-  obtain ⟨_, hobj, _⟩ := runBody_outer cfg o body w h
+  obtain ⟨_, hobj, _⟩ := runBody_outerK cfg o body w h
   unfold exitOn
   cases o with
   | none => simp [enterOn_none none w h]
@@ -836,56 +1001,13 @@ theorem runBlockOn_res (cfg : Cfg) (o : Option Nat) (body : List BodyCmd) (w : F
   | ok a => simp only; rw [hx false]
   | err e => simp only; rw [hx true]
 
-/-! ### commit / rollback do not touch the context objects either -/
-
-theorem gatherUnlock_RK (cfg : Cfg) (b : Nat) (ls : List Nat) : Rel RK (gatherUnlock cfg b ls) := by
-  induction ls with
-  | nil => exact Rel.pure RK.pre _
-  | cons lk rest ih =>
-    intro w
-    rw [gatherUnlock_snd]
-    exact RK.pre.trans (backendCmd_RK cfg b (.unlock lk) w) (ih _)
-
-theorem runCmds_RK (cfg : Cfg) (b : Nat) (cs : List BCmd) : Rel RK (runCmds cfg b cs) := by
-  induction cs with
-  | nil => exact Rel.pure RK.pre _
-  | cons c rest ih =>
-    unfold runCmds
-    simp only [bind_eq]
-    exact Rel.bind RK.pre (backendCmd_RK cfg b c) fun _ => ih
-
-theorem commitOne_RK (cfg : Cfg) (t : TxB) : Rel RK (commitOne cfg t) := by
-  refine Rel.tryFinally RK.pre ?_ (gatherUnlock_RK _ _ _)
-  unfold baseCommit
-  simp only [bind_eq]
-  exact Rel.bind RK.pre (Rel.getW RK.pre) fun _ => runCmds_RK _ _ _
-
-theorem rollbackOne_RK (cfg : Cfg) (t : TxB) : Rel RK (rollbackOne cfg t) :=
-  Rel.tryFinally RK.pre (Rel.pure RK.pre _) (gatherUnlock_RK _ _ _)
-
-theorem rollbackList_RK (cfg : Cfg) (ts : List TxB) (w : FWorld) : RK w (rollbackList cfg ts w).2 := by
-  induction ts generalizing w with
-  | nil => exact RK.pre.refl w
-  | cons t rest ih =>
-    rcases rollbackList_snd cfg t rest w with h | ⟨h, _⟩ <;> rw [h]
-    · exact RK.pre.trans (rollbackOne_RK cfg t w) (ih _)
-    · exact rollbackOne_RK cfg t w
-
-theorem commitLoop_RK (cfg : Cfg) (ts : List TxB) (w : FWorld) : RK w (commitLoop cfg ts w).2 := by
-  induction ts generalizing w with
-  | nil => exact RK.pre.refl w
-  | cons t rest ih =>
-    rcases commitLoop_snd cfg t rest w with h | h <;> rw [h]
-    · exact RK.pre.trans (commitOne_RK cfg t w) (ih _)
-    · exact RK.pre.trans (commitOne_RK cfg t w) (rollbackList_RK cfg rest _)
-
 /-- the fields of every context object once the outermost block of object `o` has been left: `o` is as constructed again
 (`_tx = None`; its `_inner` was 0 and still is), every other object is untouched -/
 theorem runBlockOn_objs (cfg : Cfg) (o : Option Nat) (body : List BodyCmd) (w : FWorld) (h : w.ctx = none)
     (hidle : ObjIdle w o) (i : Nat) :
     objOf (runBlockOn cfg o body w).2 i = if o = some i then { objOf w i with tx := false } else objOf w i := by
   rw [runBlockOn_world cfg o body w h hidle]
-  obtain ⟨hs, hobj, _⟩ := runBody_outer cfg o body w h
+  obtain ⟨hs, hobj, _⟩ := runBody_outerK cfg o body w h
   generalize (runBody cfg body (enteredOn o w)).2 = w2 at hs hobj
   generalize (!(runBody cfg body (enteredOn o w)).1.isOk) = exc
   obtain ⟨tx, htx⟩ := Option.isSome_iff_exists.1 hs
@@ -925,5 +1047,21 @@ theorem runBlockOn_objs (cfg : Cfg) (o : Option Nat) (body : List BodyCmd) (w : 
       simp
     · rw [if_neg hki, if_neg hki, h3 i, hent i]
       simp [hki]
+
+/-- a body in two parts: the second part runs in the world the first one left, unless the first one raised -/
+theorem runBody_append (cfg : Cfg) (b1 b2 : List BodyCmd) (w : FWorld) :
+    runBody cfg (b1 ++ b2) w =
+      match runBody cfg b1 w with
+      | (.ok _, w1) => runBody cfg b2 w1
+      | (.err e, w1) => (.err e, w1) := by
+  induction b1 generalizing w with
+  | nil => simp [runBody, M.pure]
+  | cons c rest ih =>
+    simp only [List.cons_append, runBody, M.bind]
+    generalize bodyStep cfg c w = p
+    obtain ⟨r, w1⟩ := p
+    cases r with
+    | ok a => exact ih w1
+    | err e => rfl
 
 end CashewsVerif.TxFault
